@@ -259,7 +259,8 @@ SymIdx(syms, name, cs) ==
 (* ================================================================================================================== *)
 LeafM(cs, c) ==
   IF cs[1] = "\"" THEN
-       (IF Len(cs) >= 2 /\ cs[Len(cs)] = "\"" THEN LET d == DecodeStr(SubSeq(cs, 2, Len(cs) - 1)) IN IF d[1] THEN SV(d[2]) ELSE ERR
+       (IF \E i \in 1..Len(cs) : FloatOfText(cs[i]) # 0 THEN UNS          \* a printed float inside quotes: its characters are not modelled
+        ELSE IF Len(cs) >= 2 /\ cs[Len(cs)] = "\"" THEN LET d == DecodeStr(SubSeq(cs, 2, Len(cs) - 1)) IN IF d[1] THEN SV(d[2]) ELSE ERR
         ELSE ERR)
   ELSE IF IsRadixRun(cs, c.radix) THEN IV(DigitsVal([i \in 1..Len(cs) |-> DigOf[UpC(cs[i])]], c.radix, Zero))
   ELSE IF IsDigitRun(cs) THEN             \* not a constant of the radix in force: ConstFloatVal takes the decimal digits
